@@ -125,11 +125,13 @@ Report ==
     IF ~InUniverse(Rec.pre) THEN PrintT(<<"SKIP", i>>)
     ELSE
     /\ Bump(1)
-    /\ Rep("C01", 11, PFValid(x.pf) /\ Accepted(x), P_C01(x) /\ P_URValid(x))
+    /\ Rep("C01", 11, PFValid(x.pf) /\ Accepted(x), P_C01(x))
     /\ Rep("C03", 13, x.pf.forest /\ (Conflicting(x.pre, x.c) \/ (Accepted(x) /\ x.pre.E # x.post.E)),
                       P_C03(x) /\ ((x.pf.forest /\ Accepted(x)) => Forest(x.u_post) /\ Forest(x.r_post)))
-    /\ Rep("C04", 14, x.pf.forest /\ x.pf.tid /\ Accepted(x) /\ x.pre.tid # x.post.tid, P_C04(x))
-    /\ Rep("C05", 15, x.pf.forest /\ x.pf.lid /\ LidOn(x.pre) /\ Accepted(x) /\ x.pre.lid # x.post.lid, P_C05(x))
+    /\ Rep("C04", 14, x.pf.forest /\ x.pf.tid /\ Accepted(x) /\ x.pre.tid # x.post.tid,
+                      P_C04(x) /\ ((PFValid(x.pf) /\ Accepted(x)) => TidOK(x.u_post) /\ TidOK(x.r_post)))
+    /\ Rep("C05", 15, x.pf.forest /\ x.pf.lid /\ LidOn(x.pre) /\ Accepted(x) /\ x.pre.lid # x.post.lid,
+                      P_C05(x) /\ ((PFValid(x.pf) /\ Accepted(x)) => LidOK(x.u_post) /\ LidOK(x.r_post)))
     /\ Rep("C06", 16, x.pf.look /\ Accepted(x) /\ x.pre.t2n # x.post.t2n, P_C06R(x))
     /\ Rep("C07", 17, HasSeg /\ Accepted(x) /\ x.pre.seg # x.post.seg, P_C07R(x))
     /\ Rep("C08", 18, HasSeg /\ Accepted(x) /\ x.pre.seg # x.post.seg, P_C08(x))
